@@ -109,8 +109,11 @@ theorem translate_idempotent {n : Nat} (G : TelModel.TR.Graph n) (hG : G.ok) (fi
     (TelModel.TR.tr G hG fixed k (TelModel.TR.tr G hG fixed k s).1).1 = (TelModel.TR.tr G hG fixed k s).1 :=
   TRP.translate_idempotent G hG fixed k s
 
-/-- with the second look of the Boolean connectives (the repair of D17) the assertion in `StepData.add_literal` never fails -/
-theorem add_literal_assertion_holds {n : Nat} (G : TelModel.TR.Graph n) (hG : G.ok) (hr : G.rechecks) (k : Fin n)
+/-- With the second look of the Boolean connectives (the repair of D17) the assertion in `StepData.add_literal` never fails.
+    `Graph.wok`: a weak rank that never increases along an edge — unfoldings of box / diamond pairs included — under which the
+    pairs that take their literal after their operands *without* looking again (since / trigger / until / release) lie strictly
+    above their operands; Boolean connectives may lie on cycles. -/
+theorem add_literal_assertion_holds {n : Nat} (G : TelModel.TR.Graph n) (hG : G.ok) (hr : G.wok) (k : Fin n)
     (s : TelModel.TR.St n) (h : s.err = false) : (TelModel.TR.tr G hG true k s).1.err = false :=
   TRP.fixed_never_asserts G hG hr k s h
 
